@@ -531,6 +531,8 @@ pub struct PairCfg {
     pub client_params: ClientParameters,
     pub server_params: ServerParameters,
     pub base_delay: Duration,
+    /// qlog collector installed on BOTH endpoints (C20's purity leg); `None` = the builders' default (NoopLogger)
+    pub qlog: Option<Arc<dyn dquic::qevent::telemetry::QLog + Send + Sync>>,
 }
 
 impl Default for PairCfg {
@@ -539,6 +541,7 @@ impl Default for PairCfg {
             client_params: handy::client_parameters(),
             server_params: handy::server_parameters(),
             base_delay: Duration::from_millis(5),
+            qlog: None,
         }
     }
 }
@@ -547,6 +550,10 @@ impl PairCfg {
     pub fn idle_timeout(mut self, d: Duration) -> Self {
         self.client_params.set(ParameterId::MaxIdleTimeout, d).expect("idle");
         self.server_params.set(ParameterId::MaxIdleTimeout, d).expect("idle");
+        self
+    }
+    pub fn with_qlog(mut self, q: Arc<dyn dquic::qevent::telemetry::QLog + Send + Sync>) -> Self {
+        self.qlog = Some(q);
         self
     }
 }
@@ -561,7 +568,9 @@ impl Pair {
 
         let s_router = Arc::new(QuicRouter::default());
         let s_mgr = Arc::new(InterfaceManager::new());
-        let listeners = QuicListeners::builder()
+        let lb = QuicListeners::builder();
+        let lb = match &cfg.qlog { Some(q) => lb.with_qlog(q.clone()), None => lb };
+        let listeners = lb
             .with_iface_factory(net.factory())
             .with_iface_manager(s_mgr)
             .with_router(s_router)
@@ -581,7 +590,9 @@ impl Pair {
         roots.add_parsable_certificates(CertificateDer::pem_slice_iter(&ca).map(Result::unwrap));
         let c_router = Arc::new(QuicRouter::default());
         let c_mgr = Arc::new(InterfaceManager::new());
-        let client = QuicClient::builder()
+        let cb = QuicClient::builder();
+        let cb = match &cfg.qlog { Some(q) => cb.with_qlog(q.clone()), None => cb };
+        let client = cb
             .with_iface_factory(net.factory())
             .with_iface_manager(c_mgr)
             .with_router(c_router)
